@@ -132,8 +132,13 @@ def e2e_part(spec, part):
             v2 = variant != "v1"
         else:
             # (v1 = ARM fw 5: oldest command set; v1arm = ARM fw 14 but DSP too old for eco-mode v2: the middle branch of the ES mode setters)
-            sim = models.es_sim(fw={"v2": b"2225F", "v1arm": b"1414E"}.get(variant, b"02525"))
-            v2 = variant == "v2"
+            # (serial-number tags of every ES-protocol model line, and - a user may point the ES class at anything - of the newer
+            #  745-platform low-voltage line)
+            es_tag = rnd.choice(("ESU", "ESU", "EMU", "BPS", "ESA", "EMJ", "BPU", "IJL", "ESN", "EMN", "EBN"))
+            sim = models.es_sim(fw={"v2": b"2225F", "v1arm": b"1414E"}.get(variant, b"02525"), tag=es_tag)
+            # (documented: eco-mode v2 needs ARM >= 14 and DSP >= 22 on ES, >= 11 on EM, >= 10 on BP units; other lines keep the v1 groups)
+            dsp_, arm_ = {"v2": (22, 15), "v1arm": (14, 14)}.get(variant, (2, 5))
+            v2 = arm_ >= 14 and dsp_ >= {"ESU": 22, "ESA": 22, "EMU": 11, "EMJ": 11, "BPS": 10, "BPU": 10}.get(es_tag, 10 ** 6)
         # prior contents of the four groups
         prior_cls = rnd.choice(("fulltime-on", "typed", "typed", "garbage", "off", "typed-on", "typed-bad-tail", "fulltime-off"))
         bases = (47547, 47553, 47559, 47565) if v2 else ((47515, 47519, 47523, 47527) if fam == "ET" else (1793, 1797, 1801, 1805))
